@@ -19,9 +19,10 @@ Proof. reflexivity. Qed.
 Theorem C06_side_consts : consts_all_known = true /\ 0 < upvalues_max <= 256 /\ 0 < locals_max <= 256.
 Proof. vm_compute. repeat split; lia. Qed.
 (* the two repairs the property needs are in the sources the model was configured from: break pops the
-   loop body's locals before jumping, unwind_stack closes upvalues before truncating *)
-Theorem C06_side_repaired : c_break_pops_first the_cfg = true /\ c_unwind_closes the_cfg = true.
-Proof. split; reflexivity. Qed.
+   loop body's locals before jumping, unwind_stack and jump_finally_impl close upvalues before truncating *)
+Theorem C06_side_repaired :
+  c_break_pops_first the_cfg = true /\ c_unwind_closes the_cfg = true /\ jump_finally_closes_upvalues = true.
+Proof. repeat split; reflexivity. Qed.
 
 (* --- invariant of the open-upvalue list: sorted strictly descending, every entry below the stack top,
        hence one entry per slot; preserved by every operation obeying the discipline --- *)
